@@ -10,6 +10,8 @@ import (
 
 	"reduction.dev/reduction/partitioning"
 	"reduction.dev/reduction/proto"
+	"reduction.dev/reduction/proto/jobpb"
+	"reduction.dev/reduction/proto/workerpb"
 	"reduction.dev/reduction/workers/operator"
 	"reduction.dev/reduction/workers/sourcerunner"
 	"verifharness/hx"
@@ -27,15 +29,22 @@ func (eng) Rule(mode string) string {
 	return "KS cases: every (count,n) with count<=40, n<=count+3 exhaustively, plus boundary and random larger configurations; KeyC cases: random keys (length 0..70, every tail length mod 4, low-entropy and binary), random namespaces/data/timestamps (incl. pre-epoch), every operator as 'own'. Non-trivial: count>1 and n>1 (more than one range and group); distinct by hash of the case parameters."
 }
 
+type deployStep struct {
+	N   int `json:"n"`
+	Own int `json:"own"`
+}
+
 type ksOp struct {
-	Kind  string `json:"kind"` // "ks" | "key"
-	Count int    `json:"count"`
-	N     int    `json:"n"`
-	Own   int    `json:"own,omitempty"`
-	Subj  []byte `json:"subj,omitempty"`
-	Ns    []byte `json:"ns,omitempty"`
-	Data  []byte `json:"data,omitempty"`
-	T     int64  `json:"t,omitempty"`
+	Kind    string       `json:"kind"` // "ks" | "key" | "deploy"
+	Deploys []deployStep `json:"deploys,omitempty"`
+	Keys    [][]byte     `json:"keys,omitempty"`
+	Count   int          `json:"count"`
+	N       int          `json:"n"`
+	Own     int          `json:"own,omitempty"`
+	Subj    []byte       `json:"subj,omitempty"`
+	Ns      []byte       `json:"ns,omitempty"`
+	Data    []byte       `json:"data,omitempty"`
+	T       int64        `json:"t,omitempty"`
 }
 
 func mk(op ksOp) *hx.Case {
@@ -89,6 +98,24 @@ func (eng) Generate(mode, tier string, r *hx.Rand) []*hx.Case {
 		}
 		cs = append(cs, mk(ksOp{Kind: "ks", Count: count, N: n}))
 	}
+	// a live operator redeployed into assemblies of different sizes (same process)
+	ndeploy := 24
+	if tier == "thorough" {
+		ndeploy = 150
+	}
+	for i := 0; i < ndeploy; i++ {
+		count := Pick3(r, 256, r.Range(2, 64), r.Range(2, 1024))
+		steps := make([]deployStep, r.Range(2, 4))
+		for j := range steps {
+			n := r.Range(1, 6)
+			steps[j] = deployStep{N: n, Own: r.Intn(n)}
+		}
+		keys := make([][]byte, 12)
+		for j := range keys {
+			keys[j] = randKey(r)
+		}
+		cs = append(cs, mk(ksOp{Kind: "deploy", Count: count, Deploys: steps, Keys: keys}))
+	}
 	for i := 0; i < nkeys; i++ {
 		var count, n int
 		switch r.Intn(5) {
@@ -122,6 +149,62 @@ func (eng) Generate(mode, tier string, r *hx.Rand) []*hx.Case {
 	return cs
 }
 
+func Pick3(r *hx.Rand, a, b, c int) int {
+	switch r.Intn(3) {
+	case 0:
+		return a
+	case 1:
+		return b
+	}
+	return c
+}
+
+type fakeJob struct{ proto.UnimplementedJob }
+
+func (fakeJob) RegisterOperator(ctx context.Context, id *jobpb.NodeIdentity) error   { return nil }
+func (fakeJob) DeregisterOperator(ctx context.Context, id *jobpb.NodeIdentity) error { return nil }
+
+func runDeploy(op ksOp) (*hx.Result, error) {
+	opr := operator.NewOperator(operator.NewOperatorParams{
+		ID: "op-self", Host: "h", Job: fakeJob{}, UserHandler: nil,
+		NeighborOperatorFactory: func(senderID string, node *jobpb.NodeIdentity) proto.Operator { return &fakeOp{} },
+	})
+	ctx, cancel := context.WithCancel(context.Background())
+	done := make(chan error, 1)
+	go func() { done <- opr.Start(ctx) }()
+	var items []string
+	var obs []any
+	for di, d := range op.Deploys {
+		ids := make([]*jobpb.NodeIdentity, d.N)
+		for i := range ids {
+			ids[i] = &jobpb.NodeIdentity{Id: fmt.Sprintf("op-%d", i), Host: "h"}
+		}
+		ids[d.Own] = &jobpb.NodeIdentity{Id: "op-self", Host: "h"}
+		if err := opr.HandleDeploy(ctx, &workerpb.DeployOperatorRequest{
+			Operators: ids, SourceRunnerIds: []string{"sr1"}, KeyGroupCount: int32(op.Count),
+			StorageLocation: fmt.Sprintf("memory://c05-deploy-%d", di),
+		}, nil); err != nil {
+			cancel()
+			return nil, err
+		}
+		rng := opr.VerifKeyGroupRange()
+		var ks []string
+		for _, k := range op.Keys {
+			dbk := opr.VerifStateDBKey(k, "", nil)
+			tk := opr.VerifTimerDBKey(k, time.Unix(0, 0))
+			ks = append(ks, fmt.Sprintf("(%s, %s, %s, %s, %s)", hx.CoqBytes(k), hx.CoqBytes(dbk), hx.CoqBytes(tk),
+				hx.CoqBool(operator.VerifOwnsKey(rng, dbk)), hx.CoqBool(operator.VerifOwnsKey(rng, tk))))
+		}
+		items = append(items, fmt.Sprintf("(%d, %d, (%d, %d), %s)", d.N, d.Own, rng.Start, rng.End, hx.CoqList(ks, "bytes * bytes * bytes * bool * bool")))
+		obs = append(obs, map[string]any{"n": d.N, "own": d.Own, "range": [2]int{rng.Start, rng.End}})
+	}
+	opr.Stop()
+	cancel()
+	<-done
+	term := fmt.Sprintf("DeployC %d %s", op.Count, hx.CoqList(items, "N * N * (N * N) * list (bytes * bytes * bytes * bool * bool)"))
+	return &hx.Result{Term: term, Nontrivial: true, Tags: []string{"deploy", fmt.Sprintf("deploys=%d", len(op.Deploys))}, Observed: obs}, nil
+}
+
 type fakeOp struct {
 	proto.UnimplementedOperator
 }
@@ -133,6 +216,9 @@ func (eng) Execute(mode string, c *hx.Case) (*hx.Result, error) {
 	}
 	if err := json.Unmarshal(c.Ops[0], &op); err != nil {
 		return nil, err
+	}
+	if op.Kind == "deploy" {
+		return runDeploy(op)
 	}
 	ks := partitioning.NewKeySpace(op.Count, op.N)
 	switch op.Kind {
